@@ -95,6 +95,8 @@ def sched_catalogue(prop, tier, drv=0, precs_extra=True, light=False):
                 if bits >> k & 1: pat[off[k]] = '1'
             j.append(sjob(prop, 'pat:3:' + ''.join(pat), 2, 1, drv=drv))
         j.append(sjob(prop, 'dense4', 2, 3, drv=drv, ms=1)); j.append(sjob(prop, 'fork3', 2, 3, drv=drv)); j.append(sjob(prop, 'chain4', 2, 3, drv=drv))
+        # value set 8 (off-diagonal pivots in two early columns only) at bound 2 on more shapes: the double-pruning defect needed exactly such values
+        j.append(sjob(prop, 'chain5', 2, 2, drv=drv, vk=8)); j.append(sjob(prop, 'lower5', 2, 2, drv=drv, w=4, ms=4, vk=8)); j.append(sjob(prop, 'dense4', 3, 2, drv=drv, ms=1, vk=8)); j.append(sjob(prop, 'relax6', 2, 2, drv=drv, relax=3, vk=8))
         j.append(sjob(prop, 'fork4', 3, 2, drv=drv))       # tree7 P=3 bound 2 was measured at > 1.1 x 10^6 executions (> 20 min, unfinished): not registered
     return j
 
